@@ -399,4 +399,36 @@ def scoreValStep (cfg : ScoreValCfg) (st : CheckerStore) (vote : ScoreVote) : Ch
       | .range b => if vote.all (fun p => b.valid p.2) then (r.1, .ok ()) else (r.1, .error (.other "VoteMagnitudeError"))
       | .enum ls => if vote.all (fun p => ls.contains p.2) then (r.1, .ok ()) else (r.1, .error (.other "VoteValueError"))
 
+/-! ## evaluator dispatch: which keywords a (wrapped) evaluator takes (core.py `_accepts_keyword`, `accepts_prev_gains`,
+    `accepts_max_seats`) — and a module-level cache of the answers, which the code does NOT have -/
+
+/-- an evaluator as dispatch sees it: a leaf class whose `evaluate` signature names the keywords it takes, or a
+    pass-through wrapper class (`evaluate(self, votes, *args, **kwargs)`: TieBreaking, PostConverted, PreConverted,
+    FixedSeatCount, PartyListEvaluator) around another evaluator -/
+inductive Ev where
+  | leaf (cls : Nat) (takes : List Nat)
+  | wrap (cls : Nat) (inner : Ev)
+deriving Repr, DecidableEq
+
+def Ev.cls : Ev → Nat
+  | .leaf c _ => c
+  | .wrap c _ => c
+
+/-- `_accepts_keyword(evaluator, name)`: the signature names it, or the wrapper asks the wrapped evaluator -/
+def acceptsKw : Ev → Nat → Bool
+  | .leaf _ takes, k => takes.contains k
+  | .wrap _ inner, k => acceptsKw inner k
+
+/-- module-level state a dispatch cache would have: (class, keyword) ↦ remembered answer -/
+abbrev KwCache := List ((Nat × Nat) × Bool)
+
+/-- the dispatch of the code as it is: no module-level state is read or written -/
+def dispatchStep (cache : KwCache) (q : Ev × Nat) : KwCache × Bool := (cache, acceptsKw q.1 q.2)
+
+/-- dispatch with the answer remembered per evaluator CLASS -/
+def dispatchStepCached (cache : KwCache) (q : Ev × Nat) : KwCache × Bool :=
+  match cache.find? (fun p => p.1 == (q.1.cls, q.2)) with
+  | some p => (cache, p.2)
+  | none => let b := acceptsKw q.1 q.2; (cache ++ [((q.1.cls, q.2), b)], b)
+
 end VL.Purity
